@@ -20,6 +20,7 @@ import (
 	"bytes"
 	"encoding/json"
 	"fmt"
+	"hash/fnv"
 	"io"
 	"sort"
 	"strings"
@@ -165,9 +166,10 @@ type record struct {
 	SegLens    []int `json:"seglens,omitempty"`
 	RereadLens []int `json:"rereadlens,omitempty"`
 
-	prog     *program // the Builder program this stream is part of
-	stream   int      // ... and its index in it
-	src      []Op     // the operators handed to the writer
+	seam     *seamCase // the page whose /Contents pieces were read
+	prog     *program  // the Builder program this stream is part of
+	stream   int       // ... and its index in it
+	src      []Op      // the operators handed to the writer
 	got      []Op
 	suspect  bool
 	pair     int64
@@ -345,6 +347,16 @@ func (c *collector) execOps(origin string, ops, want []Op, realText bool, maxPie
 		dk := "fmt|" + string(data) + "|" + origin
 		if !ok {
 			dk = ""
+		}
+		if ok && len(cut) > 1 && !c.ctx.Thorough() && strings.HasPrefix(origin, "enum/") {
+			// quick tier: every cut is executed and compared on the real code, but of
+			// the enumerated sequences only a seeded third of the cut serialisations
+			// (they differ from the one-piece bytes by the separators) is sent to TLC
+			h := fnv.New32a()
+			h.Write(data)
+			if (int64(h.Sum32())+c.ctx.Seed)%3 != 0 {
+				continue
+			}
 		}
 		c.add(&r, dk)
 		if !ok {
@@ -596,6 +608,15 @@ func classify(r *record) (key, what string) {
 			fmt.Sprintf("Builder calls %v (pre-2.0=%v): Err after call %d, Close ok=%v, closing operators %v, re-read %v, ApplyOperator refuses at %d - not explained by the Nesting model",
 				r.Calls, r.Pre2, r.ErrAt, r.CloseOK, r.Closing, r.Reread, r.ApplyErr)
 	}
+	if r.seam != nil {
+		what := fmt.Sprintf("a page whose /Contents array holds pieces of %v bytes (cut at operator boundaries, no white space at their ends) ", r.Pieces)
+		if r.Kind == "scan" {
+			what += fmt.Sprintf("is read as %s instead of %s", opsSig(r.got), opsSig(r.src))
+		} else {
+			what += fmt.Sprintf("is delivered as %q, which does not denote its operators (a separator is missing at a seam?) %s", clip(c01.Unints(r.Bytes), 40)+" ... "+tailOf(c01.Unints(r.Bytes), 60), r.errText)
+		}
+		return r.Origin, what
+	}
 	if r.Kind == "cycle" {
 		return "cycle/" + opsSig(r.src), fmt.Sprintf("read, write, read is not stable: %s was read as %s, and after writing that (%q) as %s", opsSig(r.src), opsSig(r.Ops), text, opsSig(r.Ops2))
 	}
@@ -660,6 +681,7 @@ type replayRec struct {
 	Side   string   `json:"side"`
 	Ops    []Op     `json:"ops,omitempty"`
 	Pieces int      `json:"pieces,omitempty"`
+	Cut    []int    `json:"cut,omitempty"`
 	Pre2   bool     `json:"pre2,omitempty"`
 	Calls  []string `json:"calls,omitempty"`
 	Text   string   `json:"text,omitempty"`
@@ -669,7 +691,17 @@ type replayRec struct {
 	Streams  [][]string `json:"streams,omitempty"`
 }
 
+func tailOf(b []byte, n int) string {
+	if len(b) > n {
+		b = b[len(b)-n:]
+	}
+	return string(b)
+}
+
 func replayCase(r *record) any {
+	if r.seam != nil {
+		return replayRec{Side: "seam", Ops: r.seam.ops, Cut: r.seam.cut}
+	}
 	if r.Kind == "builder" && r.prog != nil {
 		return replayRec{Side: "program", Pre2: r.prog.pre2, Mode: r.prog.mode, Deferred: r.prog.deferred, Streams: r.prog.streams}
 	}
@@ -779,7 +811,11 @@ func run(ctx *core.Ctx) error {
 	forAll(len(progs), func(i int) {
 		col.execProgram("program", progs[i])
 	})
-	ctx.Logf("random: %d operator sequences, %d Builder runs, %d Builders used for several streams; %d records for TLC", len(rnd), len(rb), len(progs), len(col.recs))
+	nseams, err := col.execSeams(seamCases(ctx))
+	if err != nil {
+		return err
+	}
+	ctx.Logf("random: %d operator sequences, %d Builder runs, %d Builders used for several streams, %d pages with /Contents arrays (piece lengths around the read sizes); %d records for TLC", len(rnd), len(rb), len(progs), nseams, len(col.recs))
 
 	sortRecords(col.recs)
 	nsus := map[string]int{}
@@ -846,6 +882,10 @@ func replay(ctx *core.Ctx, raw json.RawMessage) error {
 		col.execOps("replay", rc.Ops, normOps(dropRaw(rc.Ops)), !hasTextlessReal(rc.Ops), 3)
 	case "builder":
 		col.execBuilder("replay", rc.Pre2, rc.Calls, nil)
+	case "seam":
+		if _, err := col.execSeams([]*seamCase{seamFromCut(rc.Ops, rc.Cut)}); err != nil {
+			return err
+		}
 	case "program":
 		col.execProgram("replay", program{pre2: rc.Pre2, mode: rc.Mode, deferred: rc.Deferred, streams: rc.Streams})
 	default:
